@@ -281,6 +281,8 @@ mod sync;
 mod table;
 mod tracing;
 mod tracked_struct;
+#[cfg(salsa_verif)]
+mod verif_trace;
 mod views;
 mod zalsa;
 mod zalsa_local;
@@ -322,6 +324,13 @@ pub use crate::interned::{HashEqLike, Lookup};
 #[cfg(salsa_verif)]
 pub mod verif_hooks {
     pub use crate::table::verif_hooks as table;
+    /// Process-global trace sink (see `src/verif_trace.rs`).
+    pub mod trace {
+        pub use crate::verif_trace::{
+            disable, enable, is_enabled, note, perturb, set_yield_seed, snapshot, take,
+            thread_ordinal,
+        };
+    }
     pub use crate::zalsa_local::verif_hooks as edges;
 }
 
